@@ -1319,19 +1319,8 @@ func gateSweep(side string) []gateCase {
 	return out
 }
 
-func gateMain(t *testing.T, side string) {
-	out := verifOpen(t)
-	defer out.close()
-	if p := os.Getenv("VERIF_REPLAY"); p != "" {
-		var cs []gateCase
-		for _, c := range gateReplayCases(p, "replay", "replay") {
-			if len(c.msgs) > 0 && c.msgs[0].side == side {
-				cs = append(cs, c)
-			}
-		}
-		gateExecute(t, out, cs)
-		return
-	}
+// gateCases: corpus, the single-member sweep, random histories and (server) the exhaustive short histories.
+func gateCases(side string) []gateCase {
 	cases := gateCorpus(side)
 	if os.Getenv("VERIF_CASES") == "" {
 		cases = append(cases, gateSweep(side)...)
@@ -1361,11 +1350,38 @@ func gateMain(t *testing.T, side string) {
 			cases = append(cases, gateExhaustive(2)...)
 		}
 	}
+	return cases
+}
+
+// gateMain: sides "s" (envelopes to the server), "c" (to the client's receiving side) or both.
+func gateMain(t *testing.T, sides string) {
+	out := verifOpen(t)
+	defer out.close()
+	// tell the driver which property's monitor clauses this run is about
+	if pid := os.Getenv("VERIF_PROPERTY"); pid != "" {
+		out.line("cfg", "property "+pid, "ok", "cfg")
+	}
+	if p := os.Getenv("VERIF_REPLAY"); p != "" {
+		gateExecute(t, out, gateReplayCases(p, "replay", "replay"))
+		return
+	}
+	var cases []gateCase
+	for _, side := range strings.Split(sides, "") {
+		cases = append(cases, gateCases(side)...)
+	}
 	gateExecute(t, out, cases)
 }
 
-// TestVerifGate: envelopes to the server (streams C06 and C02).
-func TestVerifGate(t *testing.T) { gateMain(t, "s") }
+// TestVerifGate is the stream wired into ./check: envelopes to the server (C06 and C02) and, when the
+// property under check is C02, also to the client's receiving side.
+func TestVerifGate(t *testing.T) {
+	if os.Getenv("VERIF_PROPERTY") == "C06" {
+		gateMain(t, "s")
+		return
+	}
+	gateMain(t, "sc")
+}
 
-// TestVerifGateClient: envelopes to the client's receiving side (stream C02).
+// TestVerifGateServer / TestVerifGateClient: one side only (manual runs).
+func TestVerifGateServer(t *testing.T) { gateMain(t, "s") }
 func TestVerifGateClient(t *testing.T) { gateMain(t, "c") }
